@@ -466,7 +466,11 @@ func (x *fnCtx) evalSpec(env *specEnv, e *SExpr) *Val {
 			}
 			return base.Tup[i]
 		}
-		return x.specField(env, base, e.Op)
+		fv := x.specField(env, base, e.Op)
+		if env.closed && len(env.bound) == 0 && env.st != nil && env.heap == env.st.heap && fv != nil && fv.Tup == nil {
+			x.assumeValAllocated(env.st, fv)
+		}
+		return fv
 	case "index":
 		base := x.evalSpec(env, e.Args[0])
 		idx := x.evalSpec(env, e.Args[1])
